@@ -13,7 +13,7 @@ from ..finite import Unrecognised, ev_int
 from ..gfi import distribution, switch
 from ..gfi.common import Obs
 from ..program import AnalysisError
-from ..rules import is_call, is_mcall
+from ..rules import Arms, is_call, is_mcall
 from ..terms import C, Evaluator, G, P, is_t, show, mk_cmp, mk_phi
 from . import C19, C20
 
@@ -154,7 +154,7 @@ def run(chk, prog):
     ev = Evaluator(prog)
     ch = prog.cls("Choice", CM)
     r = ev.eval_fn(ch.methods["build"], ch.module, ch)
-    got = {}
+    got = Arms()
     V = P("v")
     PF = ("call", ("attr", V, "primal_flag"), (), ())
     for conds, ret in r.returns:
@@ -170,7 +170,7 @@ def run(chk, prog):
                 expected="False -> empty map; True -> Choice(value); traced -> Choice(mask) (same observable content in all three)", where=f"{ch.module.rel}:{ch.methods['build'].lineno}")
     sw = prog.cls("Switch", CM)
     r = ev.eval_fn(sw.methods["build"], sw.module, sw)
-    got = {}
+    got = Arms()
     for conds, ret in r.returns:
         got["int" if any(is_t(t, "isinst") and t[2] == "int" and p for t, p in conds) else "traced"] = ret
     IDX, IT = P("idx"), P("chm_iter")
